@@ -59,10 +59,27 @@ def same(a, b):
     return a in z and b in z
 
 
-def compare(impl, model):
+# Outputs that go through Eigen's GEMM kernel (products of 9x9 / 10x10 / dynamic Jacobians), whose
+# blocked summation order the model does not reproduce: compared under a rounding tolerance
+# relative to the largest entry of the output instead of bit for bit.  Everything else is exact.
+TOL_CELLS = {("SE_2_3", "lplus"), ("SE_2_3", "lminus"), ("SGal3", "lplus"), ("SGal3", "lminus")}
+TOL_REL = 1e-12
+
+
+def compare(impl, model, cell=None):
     """-> (equal?, description)"""
     if impl == model:
         return True, ""
+    if cell in TOL_CELLS:
+        ti, tm = impl.split(), model.split()
+        if ti[:1] == tm[:1] == ["ok"] and len(ti) == len(tm):
+            a = [gen.of_hex(x) for x in ti[1:]]
+            b = [gen.of_hex(x) for x in tm[1:]]
+            fin_a = [x for x in a if x == x and abs(x) != float("inf")]
+            scale = max([1.0] + [abs(x) for x in fin_a])
+            ok = all((x == y) or (x != x and y != y) or abs(x - y) <= TOL_REL * scale for x, y in zip(a, b))
+            if ok:
+                return True, "tol"
     ti, tm = impl.split(), model.split()
     if ti[:1] != tm[:1] or (ti and ti[0] != "ok"):
         return False, "status impl=%r model=%r" % (" ".join(ti[:2]), " ".join(tm[:2]))
@@ -109,7 +126,7 @@ if __name__ == "__main__":
     for (line, tags), a, b in zip(reqs, impl, model):
         toks = line.split()
         key = (toks[2], toks[3])
-        eq, why = compare(a, b)
+        eq, why = compare(a, b, key)
         stats[(key, eq)] += 1
         if not eq and shown[key] < 3:
             shown[key] += 1
